@@ -110,3 +110,43 @@ def Expr.eval (ρ : Nat → Int) : Expr → Option Int
     | _, _ => none
 
 end Yardl
+
+/-! ### Evaluation in a fixed-width integer type (C++ `int64_t` / `uint64_t` …, NumPy scalars) -/
+
+namespace Yardl
+
+/-- the value range of a fixed-width integer type -/
+structure Rng where
+  lo : Int
+  hi : Int
+  deriving Repr
+
+/-- modular wrap into the range (two's complement for the signed types, mod 2ⁿ for the unsigned ones) -/
+def Rng.wrap (r : Rng) (v : Int) : Int := r.lo + (v - r.lo) % (r.hi - r.lo + 1)
+
+def Rng.contains (r : Rng) (v : Int) : Bool := r.lo ≤ v && v ≤ r.hi
+
+/-- evaluation with every operand and every operation's result wrapped into the type's range -/
+def Expr.evalW (r : Rng) (ρ : Nat → Int) : Expr → Option Int
+  | .lit n => some (r.wrap n)
+  | .var i => some (r.wrap (ρ i))
+  | .neg e => (e.evalW r ρ).map (fun x => r.wrap (-x))
+  | .bin op l r' =>
+    match l.evalW r ρ, r'.evalW r ρ with
+    | some x, some y =>
+      match op with
+      | .add => some (r.wrap (x + y))
+      | .sub => some (r.wrap (x - y))
+      | .mul => some (r.wrap (x * y))
+      | .div => if y = 0 then none else some (r.wrap (tdiv x y))
+      | .pow => none
+    | _, _ => none
+
+/-- every operand, every intermediate result and the result lie in the range of the type -/
+def Expr.inRange (r : Rng) (ρ : Nat → Int) : Expr → Bool
+  | .lit n => r.contains n
+  | .var i => r.contains (ρ i)
+  | .neg e => e.inRange r ρ && (match (Expr.neg e).eval ρ with | some v => r.contains v | none => false)
+  | .bin op l r' => l.inRange r ρ && r'.inRange r ρ && (match (Expr.bin op l r').eval ρ with | some v => r.contains v | none => false)
+
+end Yardl
